@@ -93,6 +93,18 @@ def run_case(kind, p):
     msgs = []
     if kind == "stack":
         template = np.asarray(p["template"])
+        # same values, another memory layout (the stamp is defined on the values, not on how the caller stores them)
+        lay = p.get("layout", "C")
+        if lay == "F":
+            template = np.asfortranarray(template)
+        elif lay == "T":      # a transposed view of a C-ordered array
+            template = np.ascontiguousarray(template.T).T
+        elif lay == "S":      # a strided view into a larger array
+            big = np.zeros((2 * template.shape[0], 3 * template.shape[1]), dtype=template.dtype)
+            big[::2, ::3] = template
+            template = big[::2, ::3]
+        elif lay == "R":      # reversed strides
+            template = np.ascontiguousarray(template[::-1, ::-1])[::-1, ::-1]
         sy, sx = p["sy"], p["sx"]
         offs = p["offsets"]
         idx = p.get("mask_index", list(range(len(offs))))
@@ -147,6 +159,8 @@ def search(ctx, boost=1, focus=()):
         p = {"template": template, "sy": sy, "sx": sx, "offsets": offs}
         if k % 3 == 0:
             p["mask_index"] = rng.permutation(nl).tolist()
+        p["layout"] = "CFTSR"[(k // 6) % 5]
+        ctx.count("layout_" + p["layout"])
         ctx.oracle_case("stack", p, run_case("stack", p),
                         nontrivial=any(o[0] < 0 or o[1] < 0 or o[0] + th > sy or o[1] + tw > sx for o in offs))
     ctx.count("stack", n)
